@@ -25,6 +25,9 @@ struct vh_config {
 	/* reference sequence access for C03: returns false when the reference has no k-th event for lp */
 	bool (*ref_event)(uint64_t lp, uint64_t k, double *ts, uint32_t *type, uint32_t *size, uint64_t *plh);
 	uint64_t (*payload_hash)(const void *pl, unsigned size);
+	/* C07: timestamp of the event after which the LP's predicate first holds in the sequential execution (-1: at initialisation);
+	 * returns false when the reference does not know (LP never done within the reference horizon) */
+	bool (*ref_pred_ts)(uint64_t lp, double *ts);
 };
 extern struct vh_config vh_cfg;
 
